@@ -40,10 +40,11 @@ claim("C14", "abstract interpretation over char partition + who-may-push",
       "copies only (any transformation applied after the sanitizer is reported), a timestamp or a literal.", design="4/C14, 10.1")
 
 claim("C01", "MIR must-pass-through + sibling agreement of header tables + dominance + only-allowed-bypass",
-      "Decides six structural clauses for every input: (1) every entry a consuming read counts as consumed (cursor advance, count decrement) is handed to the caller - must-pass-through "
+      "Decides seven structural clauses for every input: (1) every entry a consuming read counts as consumed (cursor advance, count decrement) is handed to the caller - must-pass-through "
       "between the per-entry counter and the push, with offset-addressed-only edges derived from the code; read_next's cursor commits are followed by the return of the entry just read; "
       "(2) the two encoders and seven decoders agree on the header tables (symbolic expressions reconstructed from MIR); (3) every Entry construction is dominated by the checksum-equal edge; (4) the first planned range of a batch read is widened to the entry at the cursor (shared with C03.3); (5) both paths of Reader::append_block_to_chain carry a tail position "
-      "over to the sealed chain identically and only under tail_block_id == block.id; (6) once the batch parser has given up an entry for the byte budget nothing more is pushed (shared with C03.4). "
+      "over to the sealed chain identically and only under tail_block_id == block.id; (6) once the batch parser has stopped for the byte budget (entry does not fit, or the planned range was cut in front of / inside an entry) nothing more is pushed (shared with C03.4); "
+      "(7) a reader steps to the next block of the chain only under `cursor offset >= block.used`. "
       "Ordering, once-only delivery across blocks and the planner/budget interaction are not decided.", design="4/C01")
 claim("C04", "MIR path rules over Ok/Err edges (NOEXIT, must-not-reach), error discipline",
       "Decides for all inputs and failure points the shape conditions of 'failed appends leave no trace': no exit between sealing a block and installing its successor, rejections precede "
@@ -52,12 +53,13 @@ claim("C04", "MIR path rules over Ok/Err edges (NOEXIT, must-not-reach), error d
       "Known findings are listed by key in known_findings.json.", design="4/C04")
 claim("C12", "MIR who-may-call tables + finite evaluation of the readiness predicate + control dependence",
       "Decides who may delete files and request deletions, the exact readiness predicate of flush_check (evaluated over its sub-CFG on a finite abstract domain), the dominance conditions "
-      "of every consumed-mark site and the idempotence of marks (control dependence of the counter increment on an atomic RMW of the per-block flag). 'Durably consumed' under AtLeastOnce is not decided.",
+      "of every consumed-mark site (a block is marked only when a position the consumer has really reached - the cursor's own offset, or in a consuming read_next that offset plus the entry "
+      "just read - is at the block's end; a planned end of range does not count) and the idempotence of marks (control dependence of the counter increment on an atomic RMW of the per-block flag). 'Durably consumed' under AtLeastOnce is not decided.",
       design="4/C12")
 claim("C15", "MIR who-may-write + edge dominance + dataflow roles",
       "Decides the in-process clause for all inputs: writers of the count map, increments only after a successful append by exactly the appended number, decrements only under "
       "checkpoint (and stateful) by exactly the number of parsed entries, deliveries and decrements paired by must-pass-through. Of the recount after restart only a must-depend clause is decided (every table index and the partial-block count depend "
-      "on the persisted (block, offset) pair, by data or unshared control dependence); its arithmetic is not.", design="4/C15, 10.1")
+      "on the persisted (block, offset) pair, by data or unshared control dependence, and the persisted block is searched by id over the whole recovered chain); its arithmetic is not.", design="4/C15, 10.1")
 claim("C16", "MIR sibling agreement via symbolic expression reconstruction + ring-lifetime dataflow",
       "Decides agreement of the sibling implementations: the two entry encoders (field sources, serializer, prefix encoding, ranges, guard), the three read-range builders and exhaustive "
       "two-arm backend dispatch, and that the io_uring path keeps no queue state across batches (the ring is created in the call and sized from the plan, or a missing completion is a failure). "
@@ -71,7 +73,7 @@ claim("C09", "MIR only-allowed-bypass between commit and persist + reaching stor
       "Decides persist-before-return for StrictlyAtOnce as a path property: from each cursor commit the persisted-index write can be bypassed only by the should_persist verdict, "
       "checkpoint=false or a poisoned lock, and every WalIndex method used to record the position persists on all of its paths; the (index, offset) pair that is packaged for the "
       "index equals the cursor at that point (reaching-stores analysis); a provisional tail position is never persisted behind the reader's in-memory progress (constant 0 only under "
-      "tail_block_id != active block); should_persist's strict arm is evaluated; the batch commit closure's persist flag/target obligations; write-fsync-rename order of the index. "
+      "tail_block_id != active block); a persisted position is mapped back to a chain index by a search by block id, never by place; should_persist's strict arm is evaluated; the batch commit closure's persist flag/target obligations; write-fsync-rename order of the index. "
       "Tail ids versus recovery's synthetic ids and the AtLeastOnce redelivery bound are not decided.", design="4/C09")
 claim("C10", "MIR ordering / must-pass-through of sync calls on acknowledgement paths",
       "'Sync before acknowledging' decided on every path: SyncEach arm of the single append, flush loops of both batch paths, seal-after-flush, the call-graph link from "
